@@ -4,8 +4,13 @@
    (the ticker of Run fires at t = 1000, 2000, ...):
 
      Reset  {sid, flag, dcache, tps, start, off, spe}          the world: feature flags, seconds per slot, start slot + seconds
-     Sub    {in, typ, slot, ents: [{pk, kind, ver, ...}]}      InclusionChecker.Submitted(duty, set) is called (logged before);
-                                                               in = TRUE: from inside the beacon-node call logged just before
+     Sub    {in, typ, slot, ents: [{pk, kind, ver, ...}], wire, bcast}
+                                                               InclusionChecker.Submitted(duty, set) is called (logged before);
+                                                               in = TRUE: from inside the beacon-node call logged just before;
+                                                               wire = TRUE: the Broadcaster edge of core.Wire + WithTracking is
+                                                               invoked instead (bcast = what the stub broadcaster will return)
+     Subm   {typ, slot, n, err}                                (wire) the checker's Submitted, called by the wiring, has returned
+     Bcast  {typ, slot, n} / TrkB {typ, slot, n, err}          (wire) the stub broadcaster / the stub tracker's BroadcasterBroadcast is called
      SubRet {err}                                              ... has returned
      Dut    {via, epoch, idx, ans: {err, ds}}                  the Run loop asks for attester duties (logged with the scripted answer)
      Blk    {q, slot, ans: {kind, atts}}                       ... for the block / the block's attestations of a slot
@@ -56,7 +61,8 @@ TSub == /\ IsEvent("Sub") /\ Quiet /\ AtTick
         /\ (Ev.in \/ run.pc = "idle")
         /\ LET ds == [i \in DOMAIN Ev.ents |-> DataOf(Ev.typ, Ev.slot, Ev.ents[i])] IN
            sub' = [typ |-> Ev.typ, slot |-> Ev.slot, t |-> Ev.t, ds |-> ds, i |-> 1,
-                   bad |-> \E i \in DOMAIN ds : SubmitEffect(ds[i]) = "error"]
+                   bad |-> \E i \in DOMAIN ds : SubmitEffect(ds[i]) = "error",
+                   wire |-> Ev.wire, bc |-> Ev.bcast, st |-> "called"]
         /\ UNCHANGED <<vars, pend, cur>>
 (* one entry of the set; when the call fails the entries that Go's map order put behind the invalid one were not stored *)
 TSubStep == /\ Silent /\ sub # NoSub /\ sub.i <= Len(sub.ds) /\ cur = NoCur
@@ -65,8 +71,26 @@ TSubStep == /\ Silent /\ sub # NoSub /\ sub.i <= Len(sub.ds) /\ cur = NoCur
             /\ sub' = [sub EXCEPT !.i = @ + 1] /\ UNCHANGED cur
 TSubRet == /\ IsEvent("SubRet") /\ sub # NoSub /\ sub.i > Len(sub.ds) /\ AtTick
            /\ Named("SyntheticReported", pend = {} /\ cur = NoCur)
-           /\ Named("SubmitError", Ev.err = sub.bad)
+           /\ IF sub.wire THEN Named("BroadcastAndTracked", sub.st = "tracked") /\ Named("EdgeReturnsBroadcastError", Ev.err = (sub.bc = "err"))
+                          ELSE Named("SubmitError", Ev.err = sub.bad)
            /\ sub' = NoSub /\ UNCHANGED <<vars, pend, cur>>
+(* the wiring core.WithTracking puts around Broadcaster.Broadcast (wire mode): Submitted first ("Check inclusion even if we fail to
+   broadcast, since peers may succeed") and whatever it returns; then the broadcaster with the same duty and set, exactly once;
+   then the tracker is told the broadcaster's error; the edge returns that error *)
+TSubm == /\ IsEvent("Subm") /\ sub # NoSub /\ sub.wire /\ sub.i > Len(sub.ds) /\ AtTick
+         /\ Named("SyntheticReported", pend = {} /\ cur = NoCur)
+         /\ Named("SubmittedOnce", sub.st = "called")
+         /\ Named("SubmittedArgs", Ev.typ = sub.typ /\ Ev.slot = sub.slot /\ Ev.n = Len(sub.ds))
+         /\ Named("SubmitError", Ev.err = sub.bad)
+         /\ sub' = [sub EXCEPT !.st = "submitted"] /\ UNCHANGED <<vars, pend, cur>>
+TBcast == /\ IsEvent("Bcast") /\ sub # NoSub /\ sub.wire /\ sub.i > Len(sub.ds) /\ AtTick
+          /\ Named("SubmittedBeforeBroadcast", sub.st = "submitted")
+          /\ Named("BroadcastArgs", Ev.typ = sub.typ /\ Ev.slot = sub.slot /\ Ev.n = Len(sub.ds))
+          /\ sub' = [sub EXCEPT !.st = "bcast"] /\ UNCHANGED <<vars, pend, cur>>
+TTrkB == /\ IsEvent("TrkB") /\ sub # NoSub /\ sub.wire /\ AtTick
+         /\ Named("TrackerAfterBroadcast", sub.st = "bcast")
+         /\ Named("TrackerBroadcastArgs", Ev.typ = sub.typ /\ Ev.slot = sub.slot /\ Ev.n = Len(sub.ds) /\ Ev.err = (sub.bc = "err"))
+         /\ sub' = [sub EXCEPT !.st = "tracked"] /\ UNCHANGED <<vars, pend, cur>>
 
 (* ---- the loop of Run ---- *)
 AttOf(a) == [fam |-> FamOf(a.ver), r |-> a.r, aslot |-> a.aslot, dindex |-> a.dindex, cbits |-> a.cbits,
@@ -128,7 +152,7 @@ TSilent == /\ Silent /\ Quiet /\ ~HookNext /\ l > 1
            /\ UNCHANGED <<cur, sub>>
 \* a name recorded at an earlier position says nothing about the furthest one: forget it when the trace advances
 HWReset == IF l > TLCGet(1)[tr] THEN TLCSet(2, [TLCGet(2) EXCEPT ![tr] = "-"]) ELSE TRUE
-TraceNext == TReset \/ TSub \/ TSubStep \/ TSubRet \/ TDut \/ TBlk \/ TCom \/ TLog \/ TTrk \/ TEnd \/ TSilent
+TraceNext == TReset \/ TSub \/ TSubStep \/ TSubRet \/ TSubm \/ TBcast \/ TTrkB \/ TDut \/ TBlk \/ TCom \/ TLog \/ TTrk \/ TEnd \/ TSilent
 TraceSpec == TraceInit /\ [][TraceNext]_tvars
 Mark == /\ CheckInv("ReportsRight", Strict => ReportsRight) /\ CheckInv("Prompt", Strict => Prompt)
         /\ CheckInv("Structural", Structural)
